@@ -3,9 +3,10 @@
 #include "vfuzz.h"
 using namespace vf;
 
-struct Cfg { int prov; const KeySpec *k; std::string attr; jwt_alg_t expl; int exp_leeway; int nbf_leeway; bool iss; bool cb; std::unique_ptr<LKey> lk; };
+struct Cfg { int prov; const KeySpec *k; std::string attr; jwt_alg_t expl; int exp_leeway; int nbf_leeway; int claims /* 1 iss, 2 sub, 4 aud expected */; bool cb; std::unique_ptr<LKey> lk; };
 static std::vector<std::unique_ptr<Cfg>> &CFGS = *new std::vector<std::unique_ptr<Cfg>>;
 static Pool &POOL = *new Pool;
+static size_t N_OLD_CFGS = 0;
 
 static int ro_cb(jwt_t *jwt, jwt_config_t *) {
   jwt_value_t v = val_get(JWT_VALUE_JSON, NULL);
@@ -15,9 +16,9 @@ static int ro_cb(jwt_t *jwt, jwt_config_t *) {
   return 0;
 }
 
-static void add_cfg(int prov, const char *key, const char *attr, jwt_alg_t expl, int expl_w, int nbf_w, bool iss, bool cb) {
+static void add_cfg(int prov, const char *key, const char *attr, jwt_alg_t expl, int expl_w, int nbf_w, int claims, bool cb) {
   auto c = std::make_unique<Cfg>(); c->prov = prov; c->k = key ? &POOL.get(key) : nullptr; c->attr = attr ? attr : ""; c->expl = expl;
-  c->exp_leeway = expl_w; c->nbf_leeway = nbf_w; c->iss = iss; c->cb = cb;
+  c->exp_leeway = expl_w; c->nbf_leeway = nbf_w; c->claims = claims; c->cb = cb;
   if (c->k) { JwkOpts o; o.priv = c->k->kind == K_OCT; o.alg = c->attr; c->lk = std::make_unique<LKey>(jwk_json(*c->k, o)); if (!c->lk->ok()) { fprintf(stderr, "cfg key import failed\n"); abort(); } }
   CFGS.push_back(std::move(c));
 }
@@ -44,14 +45,24 @@ static void init_cfgs() {
     add_cfg(prov, "ed25519", nullptr, JWT_ALG_EDDSA, 0, 0, false, false);
     add_cfg(prov, "ed448", "EdDSA", JWT_ALG_NONE, -1, -1, true, true);
   }
+  N_OLD_CFGS = CFGS.size();
+  // appended later (indices above stay what the saved corpus and replay inputs mean): expected sub / aud / all three
+  for (int prov = 0; prov < 2; prov++) {
+    add_cfg(prov, nullptr, nullptr, JWT_ALG_NONE, 0, 0, 7, false);
+    add_cfg(prov, nullptr, nullptr, JWT_ALG_NONE, -1, 5, 2, true);
+    add_cfg(prov, "oct64", nullptr, JWT_ALG_HS256, 0, 0, 6, false);
+    add_cfg(prov, "ec_p256", "ES256", JWT_ALG_NONE, 0, -1, 4, true);
+    add_cfg(prov, "ed25519", nullptr, JWT_ALG_EDDSA, -1, -1, 7, false);
+  }
 }
 static jwt_alg_t cfg_alg(const Cfg &c) { return c.expl != JWT_ALG_NONE ? c.expl : c.attr.empty() ? JWT_ALG_NONE : jwt_str_alg(c.attr.c_str()); }
 
 // runs one verify under configuration ci and checks the C06 oracle; returns verdict
+static bool G_DIRTY = false;   // bit 14 of the selector: the checker is REUSED - it has already rejected another token (and was not cleared)
 static int verify_with_oracle_inner(size_t ci, const std::string &token);
 static int verify_with_oracle(size_t ci, const std::string &token) {
   // reset global state: allocator (bit 15 of the selector: the application has installed its own allocator)
-  bool guard = (ci >> 15) & 1; ci &= 0x7fff;
+  bool guard = (ci >> 15) & 1; G_DIRTY = (ci >> 14) & 1; ci &= 0x3fff;
   jwt_set_alloc(NULL, NULL);
   if (guard) { guard_foreign_frees() = 0; jwt_set_alloc(guard_malloc, guard_free); fs().cls("with-application-allocator"); }
   int r = verify_with_oracle_inner(ci, token);
@@ -68,8 +79,11 @@ static int verify_with_oracle_inner(size_t ci, const std::string &token) {
   if (c.k) jwt_checker_setkey(ch, c.expl, c.lk->item);
   jwt_checker_time_leeway(ch, JWT_CLAIM_EXP, c.exp_leeway);
   jwt_checker_time_leeway(ch, JWT_CLAIM_NBF, c.nbf_leeway);
-  if (c.iss) jwt_checker_claim_set(ch, JWT_CLAIM_ISS, "issuer");
+  if (c.claims & 1) jwt_checker_claim_set(ch, JWT_CLAIM_ISS, "issuer");
+  if (c.claims & 2) jwt_checker_claim_set(ch, JWT_CLAIM_SUB, "subject");
+  if (c.claims & 4) jwt_checker_claim_set(ch, JWT_CLAIM_AUD, "audience");
   if (c.cb) jwt_checker_setcb(ch, ro_cb, NULL);
+  if (G_DIRTY) { fs().cls("reused-checker"); jwt_checker_verify(ch, "eyJhbGciOiJub25lIn0.bm90LWpzb24.AAAA"); }
   int ret = jwt_checker_verify(ch, token.c_str());
   int flag = jwt_checker_error(ch);
   std::string msg = jwt_checker_error_msg(ch) ? jwt_checker_error_msg(ch) : "";
@@ -115,8 +129,12 @@ static int verify_with_oracle_inner(size_t ci, const std::string &token) {
 // seed corpus emission: VERIF_EMIT_CORPUS=<dir> ./target   (mode: 0 raw, 1 struct)
 static void emit_corpus(int mode) {
   const char *d = getenv("VERIF_EMIT_CORPUS"); if (!d) return;
-  const char *pays[] = {"{\"sub\":\"a\",\"iss\":\"issuer\",\"exp\":1800000000,\"nbf\":1600000000}", "{\"exp\":1,\"iss\":\"other\"}", "{\"nbf\":1900000000,\"a\":[1,{\"b\":null}],\"exp\":\"x\"}", "[1,2]"};
-  for (size_t i = 0; i < CFGS.size(); i++) for (int pi = 0; pi < 4; pi++) {
+  const char *pays[] = {"{\"sub\":\"a\",\"iss\":\"issuer\",\"exp\":1800000000,\"nbf\":1600000000}", "{\"exp\":1,\"iss\":\"other\"}", "{\"nbf\":1900000000,\"a\":[1,{\"b\":null}],\"exp\":\"x\"}", "[1,2]",
+    // claims of every JSON type (registered claims are typed: RFC 7519 allows aud to be an array)
+    "{\"iss\":\"issuer\",\"sub\":\"subject\",\"aud\":\"audience\",\"exp\":1800000000}", "{\"iss\":1,\"sub\":null,\"aud\":[\"audience\",\"b\"],\"exp\":1.8e9,\"nbf\":true}",
+    "{\"aud\":{\"x\":1},\"iss\":[],\"sub\":false,\"exp\":null,\"nbf\":[1]}", "{\"iss\":1.5,\"sub\":\"\",\"aud\":0,\"nbf\":\"1\",\"exp\":{}}"};
+  for (size_t i = 0; i < CFGS.size(); i++) for (int pi = 0; pi < 8; pi++) {
+    if (pi >= 4 && !CFGS[i]->claims) continue;
     const Cfg &c = *CFGS[i]; jwt_alg_t a = c.k ? cfg_alg(c) : JWT_ALG_NONE;
     std::string h = std::string("{\"alg\":\"") + (a == JWT_ALG_NONE ? "none" : jwt_alg_str(a)) + "\",\"typ\":\"JWT\"}";
     std::string body;
@@ -125,6 +143,13 @@ static void emit_corpus(int mode) {
       int flags = pi == 3 ? 4 : 0; body = std::string(1, (char)(i & 0xff)) + std::string(1, (char)(i >> 8)) + std::string(1, (char)flags) + std::string(1, (char)(h.size() & 0xff)) + std::string(1, (char)(h.size() >> 8)) + std::string(1, (char)(strlen(pays[pi]) & 0xff)) + std::string(1, (char)(strlen(pays[pi]) >> 8)) + h + pays[pi] + sig; }
     std::string fn = std::string(d) + "/seed-" + std::to_string(i) + "-" + std::to_string(pi); FILE *f = fopen(fn.c_str(), "wb"); if (f) { fwrite(body.data(), 1, body.size(), f); fclose(f); }
   }
+  // signatures of the right length with a constant fill (0x00, 0xff, 0x80, 0x7f): every integer inside is zero / negative-looking / maximal
+  for (size_t i = 0; i < CFGS.size(); i++) { const Cfg &c = *CFGS[i]; if (!c.k) continue; jwt_alg_t a = cfg_alg(c); static KeySpec dummy;
+    std::string h = std::string("{\"alg\":\"") + jwt_alg_str(a) + "\"}", pay = "{\"iss\":\"issuer\"}", in = b64u_enc(h) + "." + b64u_enc(pay); std::string good = ref_sign(*c.k, a, in); if (good.empty()) continue;
+    int n = 0; for (unsigned char fill : {0x00, 0xff, 0x80, 0x7f}) { std::string sig(good.size(), (char)fill), body;
+      if (mode == 0) body = std::string(1, (char)(i & 0xff)) + std::string(1, (char)(i >> 8)) + in + "." + b64u_enc(sig);
+      else body = std::string(1, (char)(i & 0xff)) + std::string(1, (char)(i >> 8)) + std::string(1, (char)0) + std::string(1, (char)(h.size() & 0xff)) + std::string(1, (char)(h.size() >> 8)) + std::string(1, (char)(pay.size() & 0xff)) + std::string(1, (char)(pay.size() >> 8)) + h + pay + sig;
+      std::string fn = std::string(d) + "/fill-" + std::to_string(i) + "-" + std::to_string(n++); FILE *f = fopen(fn.c_str(), "wb"); if (f) { fwrite(body.data(), 1, body.size(), f); fclose(f); } } }
   // a few long inputs (tens of kilobytes): valid long token, long garbage in each segment
   for (size_t i = 2; i < CFGS.size(); i += 21) {
     const Cfg &c = *CFGS[i]; jwt_alg_t a = c.k ? cfg_alg(c) : JWT_ALG_NONE; static KeySpec dummy;
